@@ -115,8 +115,10 @@ def qn_relations(ctx, rng, events, meta):
         basis = spl.BSplines(spl.make_knots(brk, deg, False), deg, False, cu)
         rn = np.array(basis.greville)
         eta = [rn, np.linspace(0, 2 * np.pi, nth, endpoint=False), np.array([0.0, 1.0])]
+        BF = 1.7          # a magnetic field strength other than 1 (it enters as B^2 / Te and B^2 / n0)
         solvers = {"chi0": QuasiNeutralitySolver(eta, 7, basis, c, chi=0), "chi1": QuasiNeutralitySolver(eta, 7, basis, c, chi=1),
-                   "kinetic": QuasiNeutralitySolver(eta, 7, basis, c, adiabaticElectrons=False)}
+                   "kinetic": QuasiNeutralitySolver(eta, 7, basis, c, adiabaticElectrons=False),
+                   "chi0B": QuasiNeutralitySolver(eta, 7, basis, c, chi=0, B=BF), "kineticB": QuasiNeutralitySolver(eta, 7, basis, c, adiabaticElectrons=False, B=BF)}
         g = np.exp(-((rn - 7.0) / 3.0) ** 2) * (rn - rn[0]) * (rn[-1] - rn)
 
         def solve(s, I0):
@@ -131,11 +133,11 @@ def qn_relations(ctx, rng, events, meta):
         # the quasi-neutrality operator is the general elliptic operator (C14) with the coefficients of the stated equation
         #   -[d_r^2 + (1/r + n0'/n0) d_r + 1/r^2 d_theta^2] phi + phi / Te = rho / n0      (adiabatic; without the phi/Te term: kinetic)
         # written here from the model's profiles, independently of the code's initialiser functions
-        ind = {"chi0": DiffEqSolver(7, basis, rn.size, nth, drFactor=lambda r: -(1 / r + physics.n0_log_derivative(r, c)),
-                                    ddThetaFactor=lambda r: -1 / r ** 2, rFactor=lambda r: 1.0 / physics.t_e(r, c),
-                                    rhoFactor=lambda r: 1.0 / physics.n0(r, c), lNeumannIdx=[0]),
-               "kinetic": DiffEqSolver(7, basis, rn.size, nth, drFactor=lambda r: -(1 / r + physics.n0_log_derivative(r, c)),
-                                       ddThetaFactor=lambda r: -1 / r ** 2, rhoFactor=lambda r: 1.0 / physics.n0(r, c), lNeumannIdx=[0])}
+        def stated(adiabatic, Bv):
+            kw = {"rFactor": (lambda r: Bv * Bv / physics.t_e(r, c))} if adiabatic else {}
+            return DiffEqSolver(7, basis, rn.size, nth, drFactor=lambda r: -(1 / r + physics.n0_log_derivative(r, c)),
+                                ddThetaFactor=lambda r: -1 / r ** 2, rhoFactor=lambda r: Bv * Bv / physics.n0(r, c), lNeumannIdx=[0], **kw)
+        ind = {"chi0": stated(True, 1.0), "kinetic": stated(False, 1.0), "chi0B": stated(True, BF), "kineticB": stated(False, BF)}
         for k, s in ind.items():
             for I0 in range(nth):
                 want = solve(s, I0)
